@@ -300,8 +300,16 @@ where
             } else if implicit_rule.as_ref() == Some(astrulename) {
                 // Add the implicit rule: ~: "IMPLICIT_TOKEN_1" ~ | ... | "IMPLICIT_TOKEN_N" ~ | ;
                 let implicit_prods = &mut rules_prods[usize::from(rule_map[astrulename])];
-                // Add a production for each implicit token
-                for t in ast.implicit_tokens.as_ref().unwrap().keys() {
+                // Add a production for each implicit token. The tokens are stored in a `HashMap`:
+                // take them in source order so that production indices don't vary between runs.
+                let mut implicit_tokens = ast
+                    .implicit_tokens
+                    .as_ref()
+                    .unwrap()
+                    .iter()
+                    .collect::<Vec<_>>();
+                implicit_tokens.sort_by_key(|(_, span)| span.start());
+                for (t, _) in implicit_tokens {
                     implicit_prods.push(PIdx(prods.len().as_()));
                     prods.push(Some(vec![Symbol::Token(token_map[t]), Symbol::Rule(ridx)]));
                     prod_precs.push(Some(None));
